@@ -246,6 +246,12 @@ def _control_for(rng, node, form_mode=False):
         else:
             lits = list(dict.fromkeys((m if m is not None else "") for m in node["members"]))
             lits.append(rng.choice(TEXTS))
+        if rng.random() < 0.3:
+            # <select multiple> bound to the Array, one option per literal
+            out.append(("select", [["multiple", S("multiple")]], "select", {}))
+            for lit in lits:
+                out.append(("option", [["value", S(lit)]], "option", {"lit": lit}))
+            return out
         ty = "checkbox" if form_mode or rng.random() < 0.7 else "radio"
         for lit in lits:
             out.append(("input", [["type", S(ty)], ["value", S(lit)]], "check", {"lit": lit}))
@@ -284,7 +290,13 @@ def _control_for(rng, node, form_mode=False):
         return res
     if form_mode:
         return [("input", [["type", S("text")]], "value", {})]
+    if r < 0.84:
+        # a radio / checkbox without any value attribute (outside "their literal value matches": correspondence only)
+        return [("input", [["type", S(rng.choice(["radio", "checkbox"]))]], "check", {"lit": None})]
     if r < 0.88:
+        # a control whose name is overridden by the author: only the label pairing is checked
+        return [("input", [["type", S("text")], ["name", S(rng.choice(["other", "x y", ""]))]], "named", {})]
+    if r < 0.93:
         return [("input", [["type", S(rng.choice(SECRET))]] + ([["auto_value", rng.choice([B(True), S("on")])]] if rng.random() < 0.4 else []),
                  "value", {})]
     return [("input", [["type", S("checkbox")], ["value", S(node["u"] if rng.random() < 0.5 else rng.choice(TEXTS))]], "check", None)]
@@ -314,11 +326,11 @@ def _mk_renders(rng, tree, form_mode):
                 entry["within"] = select_index
             renders.append(entry)
             # a label paired with the control (same bind, same literal value)
-            if role in ("value", "check") and not form_mode and rng.random() < 0.5:
+            if role in ("value", "check", "named") and not form_mode and rng.random() < 0.5:
                 lkw = []
                 if role == "check" and entry.get("lit") is not None:
                     lkw.append(["value", S(entry["lit"])])
-                elif role == "check" and node["t"] == "bool":
+                elif role == "check" and node["t"] == "bool" and kw and kw[0][1].get("v") == "checkbox":
                     # the label is given the value the control renders (bind.true)
                     lkw.append(["value", S(node["true"])])
                 renders.append({"sel": sel, "tag": "label", "kwargs": lkw, "role": "label", "within": None, "form": False,
@@ -483,8 +495,9 @@ class C12(Property):
             elif role in ("check", "option"):
                 lit = r.get("lit")
                 import flatland
-                if lit is None and isinstance(el, flatland.Boolean):
-                    lit = el.true
+                is_checkbox = dict((k, v.get("v")) for k, v in r["kwargs"]).get("type") == "checkbox"
+                if lit is None and isinstance(el, flatland.Boolean) and is_checkbox:
+                    lit = el.true          # documented: the missing value= is added from Boolean.true
                 if lit is None:
                     continue       # a checkbox/radio without any value: outside "their literal value matches"
                 if isinstance(el, flatland.Array):
